@@ -19,6 +19,7 @@ import (
 
 	apiv1 "k8s.io/api/core/v1"
 	metav1 "k8s.io/apimachinery/pkg/apis/meta/v1"
+	"k8s.io/apimachinery/pkg/util/intstr"
 	"sigs.k8s.io/controller-runtime/pkg/client"
 	gatewayv1 "sigs.k8s.io/gateway-api/apis/v1"
 	"sigs.k8s.io/gateway-api/apis/v1alpha2"
@@ -614,7 +615,13 @@ func (s vsService) obj() client.Object {
 	svc := &apiv1.Service{ObjectMeta: metav1.ObjectMeta{Namespace: s.NS, Name: s.Name, Generation: 1},
 		Spec: apiv1.ServiceSpec{IPFamilies: []apiv1.IPFamily{apiv1.IPv4Protocol}}}
 	for _, p := range s.Ports {
-		svc.Spec.Ports = append(svc.Spec.Ports, apiv1.ServicePort{Name: "p" + strconv.Itoa(int(p)), Port: p})
+		// the pods listen elsewhere than the Service: port 80 goes to 8080 (the number of the Service's other port, when it has
+		// one), any other port 1000 higher. A backendRef names the Service port, never the target port.
+		tp := p + 1000
+		if p == 80 {
+			tp = 8080
+		}
+		svc.Spec.Ports = append(svc.Spec.Ports, apiv1.ServicePort{Name: "p" + strconv.Itoa(int(p)), Port: p, TargetPort: intstr.FromInt32(tp)})
 	}
 	return svc
 }
